@@ -10,7 +10,7 @@ from __future__ import annotations
 
 import ast
 
-from .canon import local_by_value, local_stored_to, local_unpacked_from, loop_var_over
+from .canon import local_by_value, local_passed_to, local_stored_to, local_unpacked_from, loop_var_over
 
 
 def _u(e):
@@ -39,6 +39,11 @@ ROLES = {
     "molli/chem/structure.py:Structure.yield_from_mol2": {
         "a": loop_var_over("block.atoms"),
         "b": loop_var_over("block.bonds"),
+    },
+    "molli/ftypes/cdxml.py:CDXMLFile._parse_fragment": {
+        "atoms": local_passed_to("Molecule", 0),
+        "atom_idx": local_passed_to("self._parse_bond", 1),
+        "coords": local_stored_to("result.coords[:, :2]"),
     },
     "molli/storage/ukvfile.py:UKVFile.put": {
         "header": local_by_value(lambda v: isinstance(v, ast.Call) and _u(v.func).endswith(".pack")),
